@@ -29,7 +29,7 @@ type Obligation struct {
 	Cover  bool     // cover obligation: expected SAT (reachability)
 	Func   string
 	Hints  []string
-	Assumed bool // named by an 'undecided' clause: counted, not discharged
+	Assumed bool // named by an 'undecided' clause: an assumption, not an obligation of the run
 }
 
 func (o *Obligation) ok() bool {
@@ -765,7 +765,7 @@ func (f *frame) obligeAt(R, kind, key string, props []string, cond string, pos t
 	if vc.topC != nil && kind != "cover" {
 		for _, pat := range vc.topC.Undecided {
 			if strings.Contains(full, pat) {
-				// stated as not decided: the obligation is named and counted, assumed instead of discharged, and
+				// stated as not decided: the condition is named, assumed instead of sent to a back end (so not counted as an obligation), and
 				// listed among the assumptions of every property of the function
 				vc.assumed["obligation "+o.Name+" is not decided (assumed; clause 'undecided "+pat+"')"] = true
 				o.Cond = "true"
